@@ -173,16 +173,28 @@ def verify_case(world, entry, case, feas_timeout=400):
                 goal = struct_eq(v, case.value(argsd))
                 ex.oblige(s, goal, "post", "value")
             for label, f in case.ensures(v, argsd):
+                if f is True and opts.get("may_raise"):
+                    # totality contracts: the outcome of this path was decided by the executor alone (control flow fixed by
+                    # the string shape); keep it as an (immediately discharged) obligation so that it is counted
+                    f = z3.BoolVal(True)
                 ex.oblige(s, f, "post", label)
             for exc, label, cond in raises:
                 ex.oblige(s, sym.Not(cond), "noraise", f"{exc.__name__}.{label}")
         for s, e in pend:
             n += 1
             rep.covers.append((f"{ex.owner}#cover:path@{'.'.join(s.sig) or 'entry'}!{e.cls.__name__}", list(s.pc)))
+            if any(issubclass(e.cls, exc) for exc in opts.get("may_raise", ())):
+                # totality contracts: this exception type is an allowed outcome on any input (recorded, trivially
+                # discharged); every other exception type still has to be shown unreachable
+                ex.oblige(s, z3.BoolVal(True), "raise", f"{e.cls.__name__}.allowed@L{e.line}")
+                continue
             conds = [cond for exc, label, cond in raises if issubclass(e.cls, exc)]
             goal = sym.Or(*conds) if conds else False
             ex.oblige(s, goal, "raise", f"{e.cls.__name__}@L{e.line}")
         rep.paths = n
+        if n == 0:
+            # every path died inside the executor (contradictory assumptions?): nothing would be checked - never a pass
+            raise Unsupported("no path reaches a return or a raise: the case is vacuous")
         rep.obligations = ex.obligations
         rep.dead = ex.dead
     except Unsupported as e:
